@@ -747,7 +747,7 @@ func main() {
 	// ---- 4. structured random stream over the full product ----
 	n := 2200
 	if cfg.Thorough() {
-		n = 6000 // the whole thorough run stays below ~25 000 cases: the shard files index cases by a nat literal and coqc overflows its stack reading back indices beyond ~30 000
+		n = 20000
 	}
 	randMeta := func() map[string][]string {
 		if r.Chance(3, 4) {
